@@ -20,7 +20,7 @@ const txtarFile = "golang.org/x/tools/txtar"
 func runC14(ctx *core.Ctx) {
 	ctx.Trusted = append(ctx.Trusted, "go/types, go/ssa", "library-fact table of the bounds engine", "bytes.Replace, bytes.TrimPrefix, utf8.Valid, append are total")
 	ctx.Rule("Q2", "Quote/Unquote refuse rather than guess: every nil-error return with non-nil data is dominated by the shape checks (Quote: last byte is newline, utf8.Valid; Unquote: first byte '>' and last byte newline)", 2)
-	ctx.Rule("Q3", "totality of NeedsQuote, Quote, Unquote (bounds engine over all reachable module functions)", 8)
+	ctx.Rule("Q3", "totality of NeedsQuote, Quote, Unquote (bounds engine over all reachable module functions)", 1)
 	ctx.Rule("Q6", "Quote prefixes every line: inside the loop over the input the '>' append is the true-successor of the test 'previous byte == newline' (the previous byte starting as a newline) with no further condition, that test is passed on every iteration, and every iteration copies its byte; any extra condition leaves some line without the prefix that Unquote removes from every line", 1)
 	ctx.Rule("Q7", "Unquote removes one prefix per line: no cut-set trimming (Trim/TrimLeft/TrimRight with '>' in the set) and no Replace with a non-negative count on the data; a line that began with '>' before quoting begins with '>>' after it, and only the first may go", 1)
 	ctx.Rule("Q4", "caller protocol: in txtar-c and testscript's script updater every value stored as a txtar file body is either the result of a successful Quote or a value for which NeedsQuote was consulted and returned false", 2)
@@ -90,10 +90,9 @@ func runC14(ctx *core.Ctx) {
 				why = "the '>' append is reached from several places"
 			default:
 				pb := g.Preds[blk][0]
-				ef := g.EdgeFacts(pb, blk)
-				own := ef[len(ef)-1:]
-				if len(ef) == len(g.FactsAt(pb)) {
-					own = nil
+				var own []ssax.Fact
+				if f, ok := g.EdgeFact(pb, blk); ok {
+					own = []ssax.Fact{f}
 				}
 				if !cmpFact(own, token.EQL, isPrev, isConstIntV('\n')) {
 					why = "the '>' append is not decided by 'previous byte == newline' alone (previous byte starting as a newline): some line starts get no prefix, and Unquote cannot restore them"
